@@ -427,6 +427,30 @@ def F33():
     if len(em) != 1 or not (np.all(np.isfinite(em[0].position)) and np.isfinite(em[0].radius)):
         return f"uint8 image: {len(em)} droplets / non-finite parameters"
 
+def F34():
+    """small-contrast images: residuals in image units + absolute optimizer tolerances -> the fit stops early"""
+    import warnings
+    import numpy as np
+    from pde import UnitGrid, ScalarField
+    from droplets import DiffuseDroplet
+    from droplets.image_analysis import locate_droplets
+    g = UnitGrid([32, 32])
+    t = DiffuseDroplet([15.3, 16.8], 7.4, 1.5)
+    worst = []
+    for a, b in ((2.0 ** -14, 0.0), (2.0 ** -10, 0.0), (1e-3, 5.0), (2.0 ** 40, 0.0)):
+        for name, opt in (("supplied", {"vmin": b, "vmax": a + b}),
+                          ("supplied+fitted", {"vmin": b, "vmax": a + b, "adjust_values": True}),
+                          ("automatic+fitted", {"vmin": None, "vmax": None, "adjust_values": True})):
+            with warnings.catch_warnings():
+                warnings.simplefilter("ignore")
+                d = locate_droplets(ScalarField(g, b + a * t.get_phase_field(g).data), threshold="extrema", refine=True,
+                                    refine_args=opt)[0]
+            e = max(abs(d.radius - 7.4) / 7.4, abs(d.interface_width - 1.5) / 1.5, float(np.abs(d.position - t.position).max()) / 7.4)
+            if not e < 1e-4:
+                worst.append(f"image = {b!r} + {a!r} * profile, levels {name}: relative error {e:.2e}")
+    if worst:
+        return "; ".join(worst[:4]) + (f" (+{len(worst) - 4} more)" if len(worst) > 4 else "")
+
 
 ALL = {k: v for k, v in globals().items() if k[0] == "F" and callable(v)}
 
